@@ -78,15 +78,6 @@ def register(reg, prog):
         return h
     reg.externals['Transport.write'] = logger('write')
     reg.externals['Transport.close'] = logger('close')
-    reg.externals['TokenManagerI.process_request'] = logger('process_request')
-    reg.externals['TokenManagerI.dispatch_error'] = logger('tm_dispatch_error')
-
-    def tm_process_response(ex, st, args, kw, node):
-        r = VBool(z3.Bool(fresh_name('matched')))
-        st.log.append(('process_response',) + tuple(args) + (r,))
-        return [(st, r)]
-    reg.externals['TokenManagerI.process_response'] = tm_process_response
-
     # ------------------------------------------------------------ frame codec
     def log_decmsg(ex, st, env, result):
         st.log.append(('decode_message', env['data'], result))
@@ -142,7 +133,7 @@ def register(reg, prog):
                  trusted_reason='call-site summary; the body is verified under the target RFC8323Remote.abort#body below')
     reg.contract('aiocoap.transports.rfc8323common:RFC8323Remote._process_signaling', self_class='TcpConnection',
                  verify=False, properties=P, params={'msg': Ref('Message')},
-                 modifies=['self._remote_settings', 'self._ctx', 'field:_remote_settings'],
+                 modifies=['self._remote_settings', 'self._ctx', 'field:_remote_settings', 'dict:self._remote_settings'],
                  raises={'CloseConnection': MAY},
                  raises_post={'CloseConnection': {'ctx-kept': 'implies(self._transport is not None, self._ctx is old(self._ctx))'}},
                  ghost_exc=lambda ex, st, env, cls: st.log.append(('signal', env['self'], env['msg'])),
@@ -158,12 +149,12 @@ def register(reg, prog):
                  ghost=lg('dispatch', 'connection', 'msg'), only_raises=True,
                  at_exit=lambda ex, s, entry, env, result: [
                      ('empty-ignored', z3.Implies(ex.truth(s, ex.spec_val(s, 'msg.code == 0', env=env)),
-                                                 z3.BoolVal(not any(e[0] in ('process_request', 'process_response') for e in s.log)))),
-                     ('at-most-one-upcall', z3.BoolVal(sum(1 for e in s.log if e[0] in ('process_request', 'process_response')) <= 1)),
+                                                 z3.BoolVal(not any(e[0] in ('tm_process_request', 'tm_process_response') for e in s.log)))),
+                     ('at-most-one-upcall', z3.BoolVal(sum(1 for e in s.log if e[0] in ('tm_process_request', 'tm_process_response')) <= 1)),
                      ('response-to-process_response', z3.Implies(ex.truth(s, ex.spec_val(s, '64 <= msg.code < 192', env=env)),
-                                                                 z3.BoolVal(any(e[0] == 'process_response' for e in s.log) and not any(e[0] == 'process_request' for e in s.log)))),
+                                                                 z3.BoolVal(any(e[0] == 'tm_process_response' for e in s.log) and not any(e[0] == 'tm_process_request' for e in s.log)))),
                      ('request-to-process_request', z3.Implies(ex.truth(s, ex.spec_val(s, '1 <= msg.code < 32', env=env)),
-                                                               z3.BoolVal(any(e[0] == 'process_request' for e in s.log) and not any(e[0] == 'process_response' for e in s.log)))),
+                                                               z3.BoolVal(any(e[0] == 'tm_process_request' for e in s.log) and not any(e[0] == 'tm_process_response' for e in s.log)))),
                  ])
     reg.contract('aiocoap.transports.tcp:_TCPPooling._dispatch_error', self_class='TCPPool', verify=False, properties=P,
                  params={'connection': Ref('TcpConnection'), 'exc': Opt(Ref('builtins:Exception'))},
@@ -240,7 +231,8 @@ def register(reg, prog):
                  requires=['self._transport is not None', 'self._ctx is not None', 'self._ctx._tokenmanager is not None'],
                  loop_entry={0: ['self._spool == old(self._spool) + data']},
                  invariants={0: ['self._ctx is old(self._ctx)', 'self._transport is old(self._transport)']},
-                 loop_steps={0: [dr_step]}, at_exit=dr_exit, only_raises=True)
+                 loop_steps={0: [dr_step]}, at_exit=dr_exit, only_raises=True,
+                 modifies=['self._spool', 'self._ctx', 'field:_remote_settings', 'field:remote', 'dict:self._remote_settings'])
 
     # ------------------------------------------------ bodies of the summaries
     reg.contract('aiocoap.transports.tcp:TcpConnection._send_message', params={'msg': Ref('Message')}, properties=P,
